@@ -71,6 +71,7 @@ NOALLOC = [
     ('k_na_text_2', 'messages/mod.rs', ['C18', 'C13'], 'bounded', 'no-allocator text decoding: 2 characters, every bit offset, all contents, vs the same reference as the std build', 'quick', 1200),
     ('k_na_extend_full', 'sentence.rs', ['C18', 'C01'], 'bounded', 'no-allocator reassembly capacity: extending a full 384-byte buffer is an error, not a panic; one concrete state', 'quick', 1200),
     ('k_na_text_21', 'messages/mod.rs', ['C18', 'C01'], 'bounded', 'no-allocator text capacity: a 21-character text field is an error, not a panic; one concrete input', 'quick', 600),
+    ('k_na_many_1_4', 'messages/mod.rs', ['C18', 'C14'], 'bounded', 'no-allocator many_m_n::<.., 4>(1, one-byte parser) on 0..=6 bytes, all contents: same contract as the one assumed for nom::multi::many_m_n(1, 4, ..)', 'quick', 900),
 ]
 
 # unarmor is proved by Verus for every length (loop invariant + bit-vector lemmas); these harnesses are an independent bounded cross-check
